@@ -298,6 +298,8 @@ def run_supervised(binary, test, env, scratch, tag, total, prop, timeout=3000, m
         idx, what = open(progress).read().split("\t", 1)
         if "VERIF-WATCHDOG" in p.stdout:
             # the driver's real-time watchdog ended a case that never came to rest; it has logged what it saw durably
+            crashes.append(dict(property=prop, kind="conformance", sig="watchdog|%s" % what.split("|")[0],
+                                what="case %s (%s) did not come to rest in real time (driver watchdog)" % (idx, what), replay="", case=what))
             start = int(idx) + 1
             continue
         msg, site = _panic_site(p.stdout)
